@@ -36,7 +36,7 @@ def main():
             p = subprocess.run(full, env=env, stdout=subprocess.PIPE, stderr=subprocess.PIPE, stdin=subprocess.DEVNULL, timeout=300)
         txt = open(log).read() if os.path.exists(log) else ""
         os.remove(log) if os.path.exists(log) else None
-        nw = len(re.findall(r"^\d+ writev?\(", txt, re.M))
+        nw = len(re.findall(r"^\d+\s+writev?\(", txt, re.M))
         inj = "(INJECTED)" in txt
         return p.returncode, nw, inj
 
